@@ -4,6 +4,8 @@ package main
 // handling, facts about package-level variables.
 
 import (
+	"fmt"
+	"os"
 	"go/ast"
 	"go/token"
 	"go/types"
@@ -20,6 +22,9 @@ func startsWithGhostOld(fn *ssa.Function) bool {
 	for _, ins := range fn.Blocks[0].Instrs {
 		switch c := ins.(type) {
 		case *ssa.Call:
+			if _, ok := c.Call.Value.(*ssa.Builtin); ok {
+				continue // ssa:deferstack
+			}
 			if f, ok := c.Call.Value.(*ssa.Function); ok && f.Name() == "ghostOld" {
 				return true
 			}
@@ -49,6 +54,10 @@ func (e *Engine) intrinsic(fr *Frame, st *State, ins ssa.Instruction, fn *ssa.Fu
 			unsupported("old() used where no old state exists")
 		}
 		tmp := st.clone()
+		if os.Getenv("GOVC_DEBUG") != "" {
+			fmt.Fprintf(os.Stderr, "ghostOld in %s: old heaps %v cur heaps %v\n", fn.Name(), len(fr.old.heaps), len(st.heaps))
+			for k, v := range fr.old.heaps { fmt.Fprintf(os.Stderr, "   old %s = %s | cur = %s\n", k, e.tb.Show(v), e.tb.Show(st.heaps[k])) }
+		}
 		tmp.heaps = map[string]*Term{}
 		for k, v := range fr.old.heaps {
 			tmp.heaps[k] = v
